@@ -128,7 +128,10 @@ Definition gev (S : list Z) (c : cfg) (allow syn : bool) (nc : nat) (g : gst) (e
   | ETag _ => g' = g
   | EPanic _ => False
   | ENew _ => g = GDead /\ g' = gnote (GLive None false) syn
-  | EDone _ => (exists kn en, g = GLive kn en) /\ g' = GDead
+  | EDone _ =>
+    (* completion: the data half was ended by FIN/RST, or everything received has been delivered *)
+    (exists kn en, g = GLive kn en /\
+       (en = true \/ match kn with Some (_, p) => max_recv R <= p | None => R = [] end)) /\ g' = GDead
   | ESG _ b _ en skip avail saved =>
     exists kn a e', g = GLive kn false /\ 0 <= a /\ a <= e' /\ e' <= zlen S /\
       match kn with
@@ -242,7 +245,7 @@ Proof.
       split.
       { rewrite Hev. rewrite <- app_assoc. eapply gevs_app; [apply gevs_tags|]. rewrite nsg_tags, Nat.add_0_r.
         cbn [app gevs is_sg]. exists (GLive (Some (Anew, e')) true). split; [apply Hsg|].
-        exists GDead. split; [|reflexivity]. cbn [gev]. split; [eauto|reflexivity]. }
+        exists GDead. split; [|reflexivity]. cbn [gev]. split; [eauto 6|reflexivity]. }
       split; [rewrite Hev; rewrite nsg_app, nsg_app, nsg_tags; reflexivity|].
       cbn [s_cfg s_ncalls s_rev_seen s_sid s_exists s_half h_closed]. repeat split; try reflexivity; lia.
     + eexists. exists e'. eexists. exists (GLive (Some (Anew, e')) true). split; [rewrite Hnx; reflexivity|].
@@ -789,16 +792,43 @@ Proof. intros. left. reflexivity. Qed.
 Definition stopped (g : gst) (st : st) : Prop :=
   match g with GLive _ false => True | _ => h_closed (s_half st) = true end.
 
+Lemma fold_max_le : forall (R' : list (Z * Z)) m p, m <= p -> (forall r, In r R' -> fst r + snd r <= p) ->
+  fold_left (fun m r => Z.max m (fst r + snd r)) R' m <= p.
+Proof.
+  induction R' as [|r t IH]; intros m p Hm H; cbn [fold_left]; [exact Hm|].
+  apply IH; [specialize (H r (or_introl eq_refl)); lia|intros r' Hin; apply H; right; exact Hin].
+Qed.
+
+(* an empty queue: everything received lies before the delivery point *)
+Lemma rcv_empty : forall S i kn,
+  rcv_ok S i R kn [] -> match kn with Some (_, p) => 0 <= p -> max_recv R <= p | None => R = [] end.
+Proof.
+  intros S i kn (HRp & HRn & C1 & _ & _).
+  assert (HRp' : forall r, In r R -> 0 < snd r) by (apply Forall_forall; exact HRp).
+  assert (HRn' : forall r, In r R -> 0 <= fst r) by (apply Forall_forall; exact HRn).
+  destruct kn as [(A, p)|]; cbn [lo_of] in C1.
+  - intros Hp. unfold max_recv. apply fold_max_le; [exact Hp|]. intros r Hin. specialize (HRp' r Hin).
+    destruct (Z_le_gt_dec (fst r + snd r) p) as [Hle|Hgt]; [exact Hle|exfalso].
+    apply (covl_nil S i (fst r + snd r - 1)). apply C1; [exists r; split; [exact Hin|lia]|lia].
+  - destruct R as [|r t]; [reflexivity|exfalso].
+    specialize (HRp' r (or_introl eq_refl)). specialize (HRn' r (or_introl eq_refl)).
+    apply (covl_nil S i (fst r)). apply C1; [exists r; split; [left; reflexivity|lia]|lia].
+Qed.
+
 Lemma close_c2s_gen : forall S i c syn nc st kn,
-  ginv c S i R (GLive kn false) st ->
+  ginv c S i R (GLive kn false) st -> h_queue (s_half st) = [] ->
   exists st' ev gm g', close_c2s fullv st = (st', ev) /\ gevs S c true syn nc (GLive kn false) ev gm /\
     gclosed gm g' /\ ginv c S i R g' st' /\ nsg ev = O /\ s_ncalls st' = s_ncalls st /\
     h_closed (s_half st') = true /\ (exists kn' en, g' = GLive kn' en -> en = true).
 Proof.
-  intros S i c syn nc st kn (Hcfg & Hex & Hcl & _).
+  intros S i c syn nc st kn (Hcfg & Hex & Hcl & Hop) Hq0.
+  destruct (Hop eq_refl) as (Hh & Hrc). rewrite Hq0 in Hrc. pose proof (rcv_empty S i kn Hrc) as Hemp.
   unfold close_c2s. destruct (s_rev_closed st).
   - eexists. eexists. exists GDead, GDead. split; [reflexivity|]. split.
-    + cbn [gevs]. exists GDead. split; [cbn [gev]; split; [eauto|reflexivity]|reflexivity].
+    + cbn [gevs]. exists GDead. split; [|reflexivity]. cbn [gev]. split; [|reflexivity].
+      exists kn, false. split; [reflexivity|]. right.
+      destruct kn as [(A, p)|]; [|exact Hemp]. apply Hemp.
+      destruct Hh as (_ & _ & _ & HA & _ & Hs). apply sok_range in Hs. lia.
     + split; [apply gclosed_refl|]. split; [unfold ginv; cbn [s_cfg s_exists]; auto|].
       split; [reflexivity|]. split; [reflexivity|]. split; [reflexivity|]. exists None, true. intros Hc; discriminate.
   - eexists. eexists. exists (GLive kn false), (GLive kn true). split; [reflexivity|]. split; [reflexivity|].
@@ -817,7 +847,7 @@ Proof.
   intros S i c syn st kn HS Hinv. pose proof Hinv as (Hcfg & Hex & Hcl & Hopen).
   destruct (Hopen eq_refl) as (Hopen' & Hrc). clear Hopen. rename Hopen' into Hopen. pose proof Hopen as (_ & Hq & Hkn).
   unfold skip_flush. destruct (h_queue (s_half st)) as [|p1 q'] eqn:Eq.
-  - destruct (close_c2s_gen S i c syn (s_ncalls st) st kn Hinv)
+  - destruct (close_c2s_gen S i c syn (s_ncalls st) st kn Hinv Eq)
       as (st' & ev & gm & g' & He & Hg & Hgc & Hi & Hn & Hnc & Hclosed & _).
     rewrite He. exists st', ev, gm, g'. split; [reflexivity|]. split; [exact Hg|]. split; [exact Hgc|]. split; [exact Hi|].
     split; [rewrite Hn, Hnc; lia|].
@@ -917,7 +947,7 @@ Proof.
   assert (gm1 = GLive kn1 false).
   { destruct Hgc as [Hgc|(k & _ & Hgc)]; [symmetry; exact Hgc|discriminate]. }
   subst gm1.
-  destruct (close_c2s_gen S i c syn (s_ncalls s1) s1 kn1 Hi)
+  destruct (close_c2s_gen S i c syn (s_ncalls s1) s1 kn1 Hi Eq1)
     as (s2 & ev2 & gm2 & g2 & He2 & Hg2 & Hgc2 & Hi2 & Hn2 & Hnc2 & Hclosed2 & _).
   rewrite He2. econstructor; [reflexivity| |exact Hgc2|exact Hi2| |].
   - eapply gevs_app; [exact Hg|]. rewrite <- Hnc. exact Hg2.
@@ -934,7 +964,7 @@ Proof.
   intros S i c syn nc st kn en (Hcfg & Hex & Hcl & Hop). unfold close_rev. rewrite Hcl.
   destruct en.
   - eexists. eexists. exists GDead. split; [reflexivity|]. split.
-    + cbn [gevs]. exists GDead. split; [cbn [gev]; split; [eauto|reflexivity]|reflexivity].
+    + cbn [gevs]. exists GDead. split; [cbn [gev]; split; [eauto 6|reflexivity]|reflexivity].
     + split; [unfold ginv; cbn [s_cfg s_exists]; auto|]. split; [reflexivity|]. split; [reflexivity|].
       unfold stopped. cbn [s_half]. exact Hcl.
   - eexists. eexists. exists (GLive kn false). split; [reflexivity|]. split; [reflexivity|]. split.
